@@ -1,7 +1,7 @@
 #!/usr/bin/env python3
 """Regenerate checker/known_funcs.go from the functions of the reference tree (/repo).
 Development tool: run after a fix: commit that adds or removes a named function."""
-import subprocess, os, sys
+import subprocess, os, sys, json
 V = os.path.dirname(os.path.dirname(os.path.abspath(__file__)))
 exe = sys.argv[1] if len(sys.argv) > 1 else os.path.join(V, "bin", "sizercheck")
 env = dict(os.environ, SIZERCHECK_NOINLINE="1", GOFLAGS="-mod=mod", GOPROXY="off", GOSUMDB="off", GOTOOLCHAIN="local")
@@ -45,7 +45,7 @@ out = subprocess.run([exe, "-dump", "types"], env=env, capture_output=True, text
 seen, rows = set(), []
 for line in out.splitlines():
     parts = line.split("\t")
-    if len(parts) != 4 or parts[0] in seen:
+    if len(parts) != 5 or parts[0] in seen:
         continue
     seen.add(parts[0])
     rows.append(parts)
@@ -58,8 +58,9 @@ with open(os.path.join(V, "checker", "known_types.go"), "w") as f:
 // field (renames.go). Generated with tools/gen_known.py.
 var knownTypes = map[string]knownType{
 ''')
-    for i, (k, shape, erased, fields) in enumerate(rows):
+    for i, (k, shape, erased, fields, ftypes) in enumerate(rows):
         fl = ", ".join('"%s"' % x for x in fields.split(",") if x)
-        f.write('\t"%s": {Order: %d, Shape: %s, Erased: %s, Fields: []string{%s}},\n' % (k, i, shape, erased, fl))
+        tl = ", ".join(json.dumps(x) for x in ftypes.split("\x1f") if x)
+        f.write('\t"%s": {Order: %d, Shape: %s, Erased: %s, Fields: []string{%s}, FieldTypes: []string{%s}},\n' % (k, i, shape, erased, fl, tl))
     f.write('}\n')
 print(len(rows), "types")
